@@ -342,8 +342,37 @@ def check(tier):
         kinds.add(p[0])
         rep.failure(p[0], {p[0]}, {"tokens": [T.terms[a] for a in p[1]], "lex_error": p[2], "detail": p[3]})
     if not ok and not rep.violations:
-        rep.violation("proof", {"theorem": "Props/C18.v", "log": log[-2500:]}, no_input=True)
+        wit = search_bad_derivation(T)
+        if wit:
+            rep.violation("derivation", wit)
+        else:
+            rep.violation("proof", {"theorem": "Props/C18.v", "log": log[-2500:]}, no_input=True)
     return rep.finish()
+
+
+def search_bad_derivation(T):
+    """The table no longer passes the safety check: look for a token sequence the real parser accepts although no derivation of
+    the grammar yields it (then the production callbacks cannot be a derivation), or whose tree applies a production to the wrong symbols."""
+    import itertools
+    from . import docgrammar as D
+    from . import c04
+    g = D.doc_grammar()
+    hook = C.Hook()
+    try:
+        seqs = []
+        for n in range(0, 4):
+            for t in itertools.product(c04.REDUCED, repeat=n):
+                seqs.append(["grammar", "IDENT"] + list(t))
+        for o in range(0, len(seqs), 2000):
+            res = hook.call({"op": "parse_many", "seqs": seqs[o:o + 2000]}).get("results", [])
+            for s, r in zip(seqs[o:o + 2000], res):
+                if r and r[0] == 0 and not g.earley(s)[0]:
+                    ra = hook.call({"op": "parse_trace", "mode": "parse", "tokens": [[k, "t%d" % i] for i, k in enumerate(s)]})
+                    return {"tokens": s, "lex_error": False, "observed_log": [(e[0], e[1]) for e in ra.get("log", [])],
+                            "why": "accepted, but the token sequence has no derivation in the grammar: the production callbacks are not a derivation"}
+    finally:
+        hook.close()
+    return None
 
 
 def replay(path):
